@@ -37,6 +37,8 @@ impl vcf::variant::record::AlternateBases for AlternateBases<'_> {
 
         Box::new((0..self.len()).map(move |_| match read_value(&mut src)? {
             Some(Value::String(Some(value))) => Ok(value),
+            // An empty typed string is the missing allele, as in `read_ref_alt`.
+            Some(Value::String(None)) => Ok("."),
             _ => Err(io::Error::new(
                 io::ErrorKind::InvalidData,
                 "invalid alt value",
